@@ -209,9 +209,8 @@ func workMain(fs *flag.FlagSet, args []string) {
 		if *deadline > 0 && time.Now().Unix() >= *deadline {
 			break
 		}
-		if sinceGC++; sinceGC >= 32 {
+		if gcDue(&sinceGC) {
 			collectGarbage()
-			sinceGC = 0
 		}
 		if len(o.Unknown) >= 60 {
 			break
@@ -239,9 +238,8 @@ func workMain(fs *flag.FlagSet, args []string) {
 				if *deadline > 0 && k%64 == 0 && time.Now().Unix() >= *deadline+30 {
 					break
 				}
-				if sinceGC++; sinceGC >= 32 {
+				if gcDue(&sinceGC) {
 					collectGarbage()
-					sinceGC = 0
 				}
 				t2 := rt.NewTape(s)
 				t2.Override = map[string]int{"config.faulty": 1, "faultpos": k}
